@@ -16,3 +16,25 @@ Definition pa (x : bytes) : header_result :=
 Definition is_incomplete_a (r : header_result) : bool :=
   match r with RV1 r => is_incomplete1 r | RV2 r => is_incomplete2 r end.
 Definition is_complete_a (r : header_result) : bool := negb (is_incomplete_a r).
+
+(* ---- a receiver of pipelined headers (the loop of examples/server.rs, iterated): parse the buffer with
+   HeaderResult::parse; on success remove exactly the reported header bytes (v1: header.len(), the line
+   through its CRLF; v2: Header::len() = 16 + length) and go on; stop at the first non-success ---- *)
+From Coq Require Import List.
+Import ListNotations.
+Inductive frame := F1 (h : header1) | F2 (h : header2).
+Definition frame_bytes (f : frame) : bytes := match f with F1 h => text h | F2 h => hbytes h end.
+Definition frame_of (r : header_result) : option frame :=
+  match r with RV1 (Ok h) => Some (F1 h) | RV2 (Ok h) => Some (F2 h) | _ => None end.
+
+(* the receive loop: parse, on success cut the reported bytes off the front and go on *)
+Fixpoint drain (fuel : nat) (buf : bytes) : list frame * bytes :=
+  match fuel with
+  | O => ([], buf)
+  | S f =>
+    match frame_of (pa buf) with
+    | Some fr => let '(fs, r) := drain f (dropN (lenN (frame_bytes fr)) buf) in (fr :: fs, r)
+    | None => ([], buf)
+    end
+  end.
+
